@@ -141,6 +141,46 @@ Theorem C10_stub_exts_pinned_refuted :
 Proof. exact stub_exts_pinned_refuted. Qed.
 Print Assumptions C10_stub_exts_pinned_refuted.
 
+(** Whole histories.  Every history of commits from a fresh record (any operations except that
+    a round contains no boundary of its own) yields a well-formed committed record: the files
+    form an accepted chain, all intact, all identifiers below the counter, the manifest linked. *)
+Theorem C10_history_wf : forall (H : manifest -> N) (Hp : cont -> N) rs next st,
+  rs <> [] -> Forall (fun r => Forall nb_op r.1) rs ->
+  mf_rounds H Hp rs (mf_new next) = Some st -> rec_wf H Hp st.
+Proof. exact history_wf. Qed.
+Print Assumptions C10_history_wf.
+
+(** ... and on it the whole work flow closes: stub from the newest manifest [m], an
+    existence-based update [r] made on the stub, its patch file [pf]: the stub set refuses to
+    merge; [pf] listed with the real files in any order opens as the real chain followed by
+    [pf]; the record so opened has exactly the containers of the record updated directly (hence
+    the same view at every path), and that view is the plain-tree update of the real view. *)
+Theorem C10_end_to_end : forall (H : manifest -> N) (Hp : cont -> N) rs next real m r k,
+  rs <> [] -> Forall (fun r => Forall nb_op r.1) rs ->
+  mf_rounds H Hp rs (mf_new next) = Some real -> r_mf real = Some m -> Forall eb_op r.1 ->
+  exists sp pf g d,
+    stub_patch H Hp m (r_next real) r = Some sp /\
+    mf_can_merge sp = false /\
+    head (files_nf H Hp (r_stack sp) (r_ubs sp) (r_disk sp)) = Some pf /\
+    (forall fs, Permutation (files_of H Hp real ++ [pf]) fs ->
+                Chain.open_check true false fs = Some (files_of H Hp real ++ [pf])) /\
+    graft_patch real sp = Some g /\ files_of H Hp g = files_of H Hp real ++ [pf] /\
+    mf_round H Hp r (with_next real k) = Some d /\
+    r_stack g = r_stack d /\
+    viewmap (r_stack g) = foldl (fun T o => (t_step T o).1) (viewmap (r_stack real)) r.1.
+Proof. exact history_end_to_end. Qed.
+Print Assumptions C10_end_to_end.
+
+(** Observation beyond the demanded skeleton (paths, kinds, attribute names): the manifest
+    written with a patch made on a stub carries the stub's patch index for the nodes the stub
+    provided ([index_case]: /a created in container 0 of a two-container record, update via
+    stub; first component = manifest of the stub-made patch, second = the patched real record,
+    third = their kinds agree). *)
+Theorem C10_stub_manifest_index_observed :
+  index_case = Some (Some (KData, 1%nat), Some (KData, 0%nat), true).
+Proof. exact stub_manifest_index_observed. Qed.
+Print Assumptions C10_stub_manifest_index_observed.
+
 (** Non-vacuity: a two-container record, its stub, an update through the stub. *)
 Local Open Scope string_scope.
 Definition ex_hist : list op :=
